@@ -77,7 +77,7 @@ def _report(ctx, pid, binname, n, steps, res):
                        "api_calls": _history_log(ctx, binname, n, steps, h) if h is not None else []})
 
 
-def run(ctx, pid, binname, quick, thorough, assumptions):
+def run(ctx, pid, binname, quick, thorough, assumptions, extra_stage=None):
     s1 = ctx.proof_obligations()
     n, steps = quick if ctx.quick else thorough
     replay = getattr(ctx, "replay", None)
@@ -120,6 +120,11 @@ def run(ctx, pid, binname, quick, thorough, assumptions):
                 n * 4, steps + 20, len(big["s3fail"]), len(big["rust"]))
             if big["ok"]:
                 _report(ctx, pid, binname, n * 4, steps + 20, big)
+    if extra_stage is not None and not replay:
+        # property-specific additional stage (may call ctx.violation and add to cov); returns (ok, detail) for S2
+        ok2, d2 = extra_stage(ctx, cov)
+        if not ok2:
+            s2_ok, detail = False, ((str(detail) + " | ") if detail else "") + str(d2)
     cov["rule"] = ("random histories of API calls (begin/commit of every durability incl. 2PC and quick-repair, abort, drop, "
                    "readers, ephemeral/persistent savepoints, restore, reopen, compact, check_integrity, table and multimap "
                    "writes/deletes over small pages/regions); one evaluation = one observed state after an API call; "
